@@ -168,6 +168,23 @@ pub fn fault_run(scn: &Scn, faults: &[(u64, Action)], planned: &[Ev], rep: &mut 
             }
         }
     }
+    // (b') maintenance's own steps: a victim's unlink or a re-queue's utimens that fails with a real I/O error
+    // (not an absence errno) must not be reported as success
+    if matches!(res, Res::Unit | Res::Hit(_)) && w.op.is_write() {
+        let home = w.home.to_string_lossy().into_owned();
+        for e in &injected {
+            let in_home = e.path.as_ref().map(|p| std::path::Path::new(p).parent().map(|d| d.to_string_lossy() == home).unwrap_or(false)).unwrap_or(false);
+            let entry = e.path.as_ref().and_then(|p| std::path::Path::new(p).file_name().map(|n| n.to_string_lossy().into_owned())).unwrap_or_default();
+            let real = faults.iter().any(|(_, a)| matches!(a, Action::Fail(x) if *x != libc::ENOENT && *x != libc::ESTALE));
+            let own_key = entry == scn::the_key().name;
+            if real && in_home && !entry.starts_with('.') && !own_key && matches!(e.kind, Kind::Unlink | Kind::Utimens) {
+                bad.push((
+                    "maintenance-error-masked".into(),
+                    format!("{} of cached entry {:?} failed with errno {} during maintenance, yet the operation reported success", e.func, entry, e.errno),
+                ));
+            }
+        }
+    }
     // (d) temp files: nothing new survives, except the file whose own unlink was made to fail
     let failed_unlinks: Vec<String> = injected
         .iter()
